@@ -158,7 +158,7 @@ func (a *archetype) Remove(index uint32) bool {
 			}
 			src := unsafe.Add(lay.pointer, old*size)
 			dst := unsafe.Add(lay.pointer, index*size)
-			a.copy(src, dst, size)
+			a.move(id, src, dst, size)
 		}
 	}
 
@@ -232,8 +232,23 @@ func (a *archetype) SetPointer(index uint32, id ID, comp unsafe.Pointer) unsafe.
 		return dst
 	}
 
-	a.copy(comp, dst, size)
+	a.move(id, comp, dst, size)
 	return dst
+}
+
+// move copies a component between rows (of this or another archetype), before the source row is zeroed.
+//
+// Components that contain pointers are copied with write barriers. A raw byte copy followed by zeroing the
+// source hides the moved pointers from a concurrently running garbage collector, which may then free objects
+// that are still referenced by the component ("found pointer to free object").
+func (a *archetype) move(id ID, src, dst unsafe.Pointer, itemSize uint32) {
+	if a.node.hasPointers.Get(id) {
+		idx, _ := a.indices.Get(id.id)
+		tp := a.node.Types[idx]
+		reflect.NewAt(tp, dst).Elem().Set(reflect.NewAt(tp, src).Elem())
+		return
+	}
+	a.copy(src, dst, itemSize)
 }
 
 // Reset removes all entities and components.
